@@ -312,6 +312,8 @@ def run(prog, chk):
         else:
             r3.ok(w, "sequences: %s" % "; ".join(sorted(seqs)))
 
+    absent_handler_rule(prog, chk)
+
     # the packet iterator walk_loop opens is closed or aborted exactly once on every path (shared with C06 R4)
     from . import c06
     c06.internal_users_rule(prog, chk, rid="R4", primary=False)
@@ -367,3 +369,51 @@ def run(prog, chk):
         else:
             r1.violation(fn.file, w, efrees[0][2].get("l"), "elements-not-released:%s" % w,
                          "an iteration can advance to the next element without releasing the current handle")
+
+
+def absent_handler_rule(prog, chk):
+    """R5: whether a callback is installed decides only whether *that* callback is made.  A test of `handler->handle_X` may have,
+    control dependent on it, the call of handle_X and nothing else that acts: no other callback, no traversal step.  (A walker
+    that skips the packets of a loop because nobody listens for packet_start and item forgets who listens for packet_end.)"""
+    from .. import loops
+    r5 = chk.rule("R5-absent-handler-affects-only-its-own-call", "in the walker, a branch on whether a handler function is installed "
+                  "controls the call of that handler only: no other callback and no traversal call depends on it", floor=8)
+    for w in ("cif_walk", "walk_container", "walk_loops", "walk_loop", "walk_packet", "walk_item"):
+        if not prog.has_fn(w):
+            raise Broken("walker function %s not found" % w)
+        fn = prog.fn(w)
+        for b in fn.blocks.values():
+            if len(b.succs) != 2:
+                continue
+            cnd = b.term.get("full") if b.term and isinstance(b.term.get("full"), dict) else cfgq.cond_of(fn, b)
+            if cnd is None:
+                continue
+            tested = {x.get("name") for x in walk(cnd) if isinstance(x, dict) and x.get("k") == "member"
+                      and (x.get("name") or "").startswith("handle_")}
+            # an operand of a short-circuit condition sits in its own block: look at that block's own condition as well
+            own = cfgq.cond_of(fn, b)
+            if own is not None:
+                tested |= {x.get("name") for x in walk(own) if isinstance(x, dict) and x.get("k") == "member"
+                           and (x.get("name") or "").startswith("handle_")}
+            if not tested:
+                continue
+            t, f = loops.control_dependents(fn, b.id)
+            dep = (t | f) - {b.id}
+            acts = []
+            for bid in sorted(dep):
+                for r in fn.blocks[bid].roots:
+                    for x in walk_eval(r):
+                        if x.get("k") == "call":
+                            tgt = indirect_target(x)
+                            if tgt in tested:
+                                continue
+                            acts.append((x, tgt or x.get("callee") or "?"))
+            key = "%s:L%s:%s" % (w, cnd.get("l"), ",".join(sorted(tested)))
+            if acts:
+                x, what = acts[0]
+                r5.violation(fn.file, w, x.get("l"), "absent-handler-controls-more:%s:%s" % (w, ",".join(sorted(tested))),
+                             "whether %s is installed (test at L%s) decides whether `%s` is called (L%s): callbacks other than "
+                             "the one tested, or traversal steps, depend on a handler's absence" %
+                             (" / ".join(sorted(tested)), cnd.get("l"), what, x.get("l")))
+            else:
+                r5.ok(key, "controls only its own call")
